@@ -322,7 +322,7 @@ def coq_outcome(o: tuple | None) -> str:
         return f"(OOut (ROk {clist(map(cq, o[1]))}))"
     if k == "scalar":
         return f"(OOut (RScalar {cq(o[1])}))"
-    simple = {"none": "RNone", "unbound": "RErrUnbound", "vec": "RErrVec", "arity": "RErrArity", "fn": "RErrFn", "illformed": "RIllFormed"}
+    simple = {"none": "RNone", "unbound": "RErrUnbound", "vec": "RErrVec", "arity": "RErrArity", "fn": "RErrFn", "junk": "RJunk", "illformed": "RIllFormed"}
     if k in simple:
         return f"(OOut {simple[k]})"
     return "OUnmodelled"  # an outcome class the model does not have: always a mismatch
